@@ -13,6 +13,7 @@ CONSTANTS
     InfluxStopF = FALSE
     ReaderDone = TRUE
     AlertCloseOnErr = FALSE
+    UdfStopAborts = FALSE
     HookNeedsTmLock = FALSE
 INVARIANTS
     TypeOK
